@@ -37,8 +37,13 @@ Definition result_eqb (a b : result) : bool :=
 Definition agree (c : case) : bool :=
   let h := hints (c_cfg c) (c_query c) in
   (fst h =? fst (c_hints c)) && (snd h =? snd (c_hints c)) &&
-  result_eqb (engine_eval (c_cfg c) (c_query c) (restrict (c_hints c) (c_series c))) (c_obs c) &&
-  result_eqb (engine_eval (c_cfg c) (c_query c) (c_series c)) (c_obs_all c).
+  if modelled (c_query c) then
+    result_eqb (engine_eval (c_cfg c) (c_query c) (restrict (c_hints c) (c_series c))) (c_obs c) &&
+    result_eqb (engine_eval (c_cfg c) (c_query c) (c_series c)) (c_obs_all c)
+  else
+    (* nested subqueries: the evaluation algorithm is not modelled; the select hints are, and the
+       run on the hinted samples must give what the run on all samples gives *)
+    result_eqb (c_obs c) (c_obs_all c).
 
 (* the property on the implementation's own output: it equals the documented selection computed
    directly (filter / latest-in-window / multiples of the step) on the FULL stored series *)
